@@ -207,6 +207,10 @@ impl Report {
     }
 }
 pub fn run_caught<F: Fn() -> CaseResult>(f: &F) -> CaseResult {
+    caught(f)
+}
+/// run `f`, turning a panic of the subject into a failure (and a panic of the harness into MACHINERY)
+pub fn caught<T, F: Fn() -> Result<T, Fail>>(f: &F) -> Result<T, Fail> {
     match catch_unwind(AssertUnwindSafe(f)) {
         Ok(r) => r,
         Err(_) => {
